@@ -14,38 +14,36 @@ def parseKVOp : List String → Option Op
   | ["cancel"] => some .cancel
   | _ => none
 
+/-- the iteration result is printed sorted by key (`ExtTreeMap.toList`; the harness sorts
+what Go's maps yield) -/
 def fmtKVOut : Out → String
   | .ok => "ok"
   | .err => "err"
   | .nobucket => "nobucket"
   | .val none => "val none"
   | .val (some v) => s!"val {v}"
-  | .kvs l => "kvs" ++ String.join (l.map fun (k, v) => s!" {k}={v}")
+  | .kvs m => "kvs" ++ String.join (m.toList.map fun (k, v) => s!" {k}={v}")
 
-def opBucket : Op → Option Nat
-  | .create b | .put b _ _ | .del b _ | .get b _ | .iter b => some b
-  | _ => none
-
-/-- state: the backend state plus the list of bucket names seen so far (what Go's
-`range db.mem.puts` enumerates is a subset of these) -/
-def kvModel {σ} (init : σ) (step : List Nat → σ → Op → σ × Out) : Model where
-  σ := σ × List Nat
-  init := fun _ => some (init, [])
-  step := fun (s, names) ws =>
+/-- one model = an initial state and the step function the theorems are about.  For the
+two CacheDB variants the state carries the list of bucket names seen so far and the step
+is `CacheDB.stepN` (names are added by `addName`: only when not already contained; what
+Go's `range db.mem.puts` enumerates is a subset of these), exactly the objects of
+`Verif.C17.cachedb_trace_eq`. -/
+def kvModel {σ} (init : σ) (step : σ → Op → σ × Out) : Model where
+  σ := σ
+  init := fun _ => some init
+  step := fun s ws =>
     match parseKVOp ws with
-    | none => ((s, names), "bad-op")
+    | none => (s, "bad-op")
     | some op =>
-      let names := match opBucket op with
-        | some b => if names.contains b then names else b :: names
-        | none => names
-      let (s', o) := step names s op
-      ((s', names), fmtKVOut o)
+      let (s', o) := step s op
+      (s', fmtKVOut o)
 
 def kvModels : List (String × Model) := [
-  ("spec", kvModel Spec.init fun _ s op => s.step op),
-  ("mem", kvModel MemDB.init fun _ s op => s.step op),
-  ("cachemem", kvModel (⟨MemDB.init, MemDB.init⟩ : CacheDB MemDB) fun ns s op => CacheDB.step memBackend ns s op),
-  ("cachespec", kvModel (⟨MemDB.init, Spec.init⟩ : CacheDB Spec) fun ns s op => CacheDB.step specBackend ns s op)
+  ("spec", kvModel Spec.init Spec.step),
+  ("mem", kvModel MemDB.init MemDB.step),
+  ("cachemem", kvModel (CacheDB.init MemDB.init) (CacheDB.stepN memBackend)),
+  ("cachespec", kvModel (CacheDB.init Spec.init) (CacheDB.stepN specBackend))
 ]
 
 end Verif.Drv
